@@ -738,7 +738,7 @@ def cases(rng, tier, worker, nworkers):
         i += 1
         if i % nworkers == worker:
             yield c
-    n_random = 3000 if tier == 'quick' else 48000 // nworkers
+    n_random = 8000 if tier == 'quick' else 240000 // nworkers
     for _ in range(n_random):
         yield _random_case(rng)
 
